@@ -100,7 +100,8 @@ def parseTx (e : String) : Option TxD :=
 def parseOp (e : String) : Option OpD := do
   let n ← (e.dropEnd 1).toString.toNat?
   let c ← match (e.takeEnd 1).toString with
-    | "v" => some OpCls.v | "u" => some OpCls.u | "f" => some OpCls.f | _ => none
+    | "v" => some OpCls.v | "u" => some OpCls.u | "f" => some OpCls.f
+    | "s" => some OpCls.s | "z" => some OpCls.z | _ => none
   pure ⟨n, c⟩
 
 def parseContent (s : String) : Option DContent :=
@@ -270,7 +271,13 @@ def candidateLines : List String := [
   "case 1=S3 r pad 1 S0.5.w -", "case - r pad 1 S0.5.n -", "case 1=S3 c pad 1 S0.5.w -",
   "case 1=T1 r tx 1 T0.2.i -", "case 1=T1 r tx 1 T1.2.v -", "case - r tx 1 T0.2.i,0.3.v -", "case 1=T1.2 r tx 1 T0.3.v -",
   "case 2=R1 r reg 2 R0.b.2v -", "case 2=R1 r reg 2 R0.g.2u -", "case 2=R1 r reg 2 R0.g.2f -", "case 2=R1.2 r reg 2 R0.g.3v -",
-  "case 2=R1 c reg 2 R0.g.2u -"
+  "case 2=R1 c reg 2 R0.g.2u -",
+  -- first arrival of an invalid register on a key not held
+  "case - r reg 2 R0.b.1v -", "case - r reg 2 R0.g.1v,2u -", "case - r reg 2 R0.g.1v,2s -", "case - r reg 2 R0.g.1v,2z -",
+  "case - r reg 2 R0.g.2f -",
+  "case - c regp 2 R0.b.1v 0.0.1.f.1.1.5,1.1.1.f.1.1.2,2.2.1.f.1.1.3;0.1.2",
+  "case - c regp 2 R0.g.1v,2u 0.0.1.f.1.1.5,1.1.1.f.1.1.2,2.2.1.f.1.1.3;0.1.2",
+  "case - r pad 1 S0.3.w -", "case - r tx 1 T0.1.i -", "case - r tx 1 T1.2.v -"
 ]
 
 def searchCandidates : List String :=
